@@ -46,8 +46,7 @@ func (ec *ErrorContainer) AddError(err error) {
 // which are nil will be dropped.
 func (ec *ErrorContainer) AddErrorList(el []error) {
 	if ec.errors_ == nil {
-		ec.errors_ = el
-		return
+		ec.errors_ = make([]error, 0, len(el))
 	}
 	for i := range el {
 		if el[i] != nil {
